@@ -240,4 +240,21 @@ CHECKS = {
                      'annotation texts do not themselves start with // or /* (the code generator library copies such texts verbatim)',
                      'for shipped files other than api_latest.tl only totality of the parser is asserted (mtproto.tl uses syntax outside the subset)'],
     ),
+    'C06': dict(
+        pkg='./c06', test='TestC06', level='exploration', helpers={'vdriver': './cmd/vdriver'},
+        quick=dict(shards=8, checks=8, budget_s=900),
+        thorough=dict(shards=16, checks=600, budget_s=3400),
+        level_text=('Every case is a complete key exchange of the real client (fresh child process) against an independent, specification-following reference server '
+                    'with generated parameters (RSA key from a pool, nonces, pq from three prime size classes, g in {3,4,7}, DH secrets, padding). Corners - each of nonce, '
+                    'server_nonce, new_nonce, new_nonce_hash1, RSA ciphertext, g_a, g_b, g^ab starting with 1 (thorough: 2) zero bytes - are forced by searching inputs; client '
+                    'draws are injected through tag-guarded hooks for the corners and left to the client in most random cases. Both sides must end with the same 256-byte key, '
+                    'key id and salt, the session must be stored, and the first encrypted request must be readable by the server.'),
+        technique='scenario-based property testing (rapid) against a reference MTProto server with search-forced numeric corners',
+        rule=('case = key-exchange scenario (RSA key, server_nonce, p<q primes, pq padding, g, server secret a, padding seed, optionally injected client nonce/new_nonce/b). '
+              'Every completed run is non-trivial; classes record which field the server actually saw starting with zero bytes; distinct by hash of the scenario.'),
+        must_hit=['corner:nonce', 'corner:server_nonce', 'corner:new_nonce', 'corner:new_nonce_hash1', 'corner:rsa_ciphertext', 'corner:g_a', 'corner:g_b', 'corner:g_ab',
+                  'draws:client-own', 'draws:injected', 'verdict:ok'],
+        assumptions=['the reference server is conformant: it follows core.telegram.org/mtproto/auth_key with fixed-width values (self-consistent: it completes with the fixed client)',
+                     'DH group = Telegram\'s 2048-bit safe prime', 'a connect that the server side had to abandon (recorded reason) is judged by that reason, never by elapsed time'],
+    ),
 }
